@@ -91,11 +91,24 @@ impl Mix {
                 m.drop_col = 0;
                 m.rename_col = 0;
             }
-            "C17" | "C18" => {
+            "C17" => {
                 m.overwrite = 0;
+                m.restore = 0;
+                m.update = 18;
+                m.merge = 14;
+                m.merge_partial = 8;
+                m.compact = 12;
+            }
+            "C18" | "C15" => {
+                m.overwrite = 1;
                 m.update = 18;
                 m.merge = 14;
                 m.compact = 12;
+                m.restore = 3;
+            }
+            "C16" => {
+                m.create_index = 3;
+                m.restore = 0;
             }
             _ => {}
         }
@@ -386,6 +399,7 @@ pub struct Runner {
     pub seen_col_rewrite: bool,
     /// history contained a compaction with deferred index remap while an index existed
     pub seen_defer_remap: bool,
+    pub lin: crate::lineage::Lineage,
 }
 
 impl Runner {
@@ -451,7 +465,9 @@ impl Runner {
             Ok((w, ctx, ds, st, gen)) => {
                 let mut history = BTreeMap::new();
                 history.insert(ds.version().version, st.clone());
-                Ok(Self { cfg, rng, w, ctx, ds, st, history, gen, res, next_actor: 100, step: 0, seen_col_rewrite: false, seen_defer_remap: false })
+                let mut lin = crate::lineage::Lineage::new();
+                lin.init(&st, ds.version().version);
+                Ok(Self { cfg, rng, w, ctx, ds, st, history, gen, res, next_actor: 100, step: 0, seen_col_rewrite: false, seen_defer_remap: false, lin })
             }
             Err(e) => {
                 res.violate("C11", "create", "create-failed", 0, e);
@@ -484,6 +500,9 @@ impl Runner {
                 for v in (before + 1)..after {
                     // intermediate versions of multi-transaction operations keep the old contents
                     self.history.insert(v, self.st.clone());
+                }
+                if after > before {
+                    self.lin.apply(op, &self.st, &expect, after);
                 }
                 self.st = expect;
                 self.history.insert(after, self.st.clone());
@@ -974,6 +993,22 @@ pub async fn run_seq(cfg: RunCfg) -> RunResult {
             }
             if changed && r.rng.chance(0.3) {
                 r.o_time_travel(2).await;
+            }
+            let prop_now = r.cfg.prop.clone();
+            if matches!(prop_now.as_str(), "C07" | "C18" | "C13" | "C17" | "C15") {
+                r.o_rowids(what).await;
+            }
+            if matches!(prop_now.as_str(), "C17" | "C13") {
+                r.o_version_cols(what).await;
+            }
+            if matches!(prop_now.as_str(), "C15" | "C18") {
+                r.o_take(what).await;
+            }
+            if matches!(prop_now.as_str(), "C37" | "C05") {
+                r.o_flags();
+            }
+            if prop_now == "C16" {
+                r.o_knobs(3).await;
             }
         })
         .await;
